@@ -104,12 +104,28 @@ class Broken(Harness):
     prop, ob = PROP, 'O3'
     width = 64
 
-    def __init__(self, stage, multi):
-        self.stage, self.multi = stage, multi
-        self.name = 'broken-%s-%s' % (stage, 'targets' if multi else 'single')
+    def __init__(self, stage, multi, json=False):
+        self.stage, self.multi, self.json = stage, multi, json
+        self.name = 'broken-%s-%s%s' % (stage, 'targets' if multi else 'single', '-json' if json else '')
 
     def params(self):
-        return {'stage': self.stage, 'multi': self.multi}
+        return {'stage': self.stage, 'multi': self.multi, 'json': self.json}
+
+    @staticmethod
+    def json_alg(lines):
+        """does any JSON document among the output lines list algorithms (a non-empty kex/key/enc/mac/aut entry)?"""
+        import json as _json
+        for ln in lines:
+            if not (ln.startswith('{') if isinstance(ln, str) else bool(ln.startswith('{'))):
+                continue        # error texts may echo peer bytes; only documents are looked at
+            t = ln if isinstance(ln, str) else zx.shims.concretize_str(ln)
+            try:
+                d = _json.loads(t)
+            except ValueError:
+                continue
+            if any(d.get(c) for c in ('kex', 'key', 'enc', 'mac', 'aut')):
+                return True
+        return False
 
     def inputs(self):
         return {'x': zx.fresh_bytes('x', 2)}
@@ -149,8 +165,8 @@ class Broken(Harness):
             return {'ret': r['ret'], 'alg': has_alg_lines(r['lines']), 'nconn': len(net.made)}
         else:
             raise ValueError(st)
-        r = AE.run_audit(M, conns, target_list=(['t'] if self.multi else ()))
-        return {'ret': r['ret'], 'alg': has_alg_lines(r['lines']), 'nconn': len(r['net'].made)}
+        r = AE.run_audit(M, conns, target_list=(['t'] if self.multi else ()), json=self.json)
+        return {'ret': r['ret'], 'alg': has_alg_lines(r['lines']) or (self.json and self.json_alg(r['lines'])), 'nconn': len(r['net'].made)}
 
     def check(self, inp, obs):
         r = obs['ret']
@@ -234,6 +250,8 @@ def tasks(tier):
                'short-kexinit-payload-100', 'short-kexinit-payload-130'):
         for multi in (False, True):
             T.append(Broken(st, multi))
+            if st in ('banner-only', 'truncated-kexinit', 'wrong-type', 'garbage-kexinit', 'short-kexinit-payload-30', 'no-banner') or tier != 'quick':
+                T.append(Broken(st, multi, True))
     T.append(PolicyStatus(False))
     T.append(PolicyStatus(True))
     return T
@@ -244,7 +262,7 @@ def harness_by_name(name, params):
     if k == 'fold':
         return Fold(params['mix'])
     if k == 'broken':
-        return Broken(params['stage'], params['multi'])
+        return Broken(params['stage'], params['multi'], params.get('json', False))
     if k == 'policy':
         return PolicyStatus(params['json'])
     raise KeyError(name)
